@@ -35,5 +35,7 @@ for d in sorted(glob.glob(f'{R}/*/')):
       'detected_by':[{'check':c,'signature':s} for c,rc,s in runs if rc==1],
       'not_detected_by':[c for c,rc,s in runs if rc==0],
       'inconclusive':[c for c,rc,s in runs if rc not in (0,1)]}
+    if os.path.exists(d+'override.json'):
+        meta.update(json.load(open(d+'override.json')))
     json.dump(meta,open(d+'meta.json','w'),indent=1,ensure_ascii=False)
     print(name, 'caught:',[x['check'] for x in meta['detected_by']], 'missed:',meta['not_detected_by'], 'inc:',meta['inconclusive'])
